@@ -30,12 +30,20 @@ CHECKS = {
     },
     "C01": {
         "quick": [
-            {"pkg": "v2", "entries": ["VerifC01Flat"], "params": {"N": 2}},
+            {"pkg": "v2", "entries": ["VerifC01Flat"], "params": {"N": 2, "CLONE": 1}},
+            {"pkg": "v2", "entries": ["VerifC01Obj", "VerifC01Void", "VerifC01Mixed"], "params": {"N": 2}},
+            {"pkg": "v2", "entries": ["VerifC01Keyed"], "params": {"N": 2, "M": 1}},
+            {"pkg": "v2", "entries": ["VerifC01Nest"], "params": {"N": 2, "OPTS": 0x17}},
         ],
         "thorough": [
-            {"pkg": "v2", "entries": ["VerifC01Flat"], "params": {"N": 3}},
+            {"pkg": "v2", "entries": ["VerifC01Flat"], "params": {"N": 3, "CLONE": 1}},
+            {"pkg": "v2", "entries": ["VerifC01Obj", "VerifC01Void", "VerifC01Mixed"], "params": {"N": 2, "INNER": 2}},
+            {"pkg": "v2", "entries": ["VerifC01Keyed"], "params": {"N": 2, "M": 1}},
+            {"pkg": "v2", "entries": ["VerifC01Keyed"], "params": {"N": 1, "M": 2}},
+            {"pkg": "v2", "entries": ["VerifC01Nest"], "params": {"N": 2, "OPTS": 0x77, "WRAPS": 4}},
         ],
-        "covers": ["c01.flat.none", "c01.flat.set", "c01.flat.multiset", "c01.flat.merge", "c01.flat.set+merge", "c01.flat.multiset+merge"],
+        "covers": ["c01.flat.none", "c01.flat.set", "c01.flat.multiset", "c01.flat.merge", "c01.flat.set+merge", "c01.flat.multiset+merge",
+                   "c01.obj.none", "c01.obj.merge", "c01.keyed.setkeys", "c01.void.none", "c01.mixed.set", "c01.nest.none", "c01.nest.multiset"],
         "outside": "arrays longer than N, depth beyond the families, FNV collisions",
     },
 }
